@@ -583,6 +583,17 @@ macro_rules! search_sigs {
             // --- public key replaced
             sigs_c02_eval(s, &base, "pk_plus_g_rejects", "pk+G".into(), scheme, pk + gp, &(k + RScalar::ONE), p, m, false);
             sigs_c02_eval(s, &base, "pk_negated_rejects", "-pk".into(), scheme, -pk, &(-k), p, m, false);
+            // --- a key outside the prime-order subgroup (pk + T, T of cofactor order: pairs exactly like pk), as bytes
+            if let Some(shifted) = crate::search_codec::codec_torsion_shift(rng, !G1, &sigs_pb(&pk)) {
+                let sg = sigs_mk(scheme, p);
+                let got = sigs_try(|| match PublicKey::<C>::try_from(shifted.as_slice()) {
+                    Ok(other) => sg.verify(&other, m).is_ok(),
+                    Err(_) => false,
+                });
+                let key = format!("{}|{}|{}|torsion|{}", G1, scheme, gen::hx(&shifted), gen::hx(&sha256(m)));
+                let det = sigs_with(base.clone(), json!({"perturbation": "public key + cofactor-torsion point, imported from bytes", "verify_pk": gen::hx(&shifted)}));
+                sigs_decide(s, "pk_outside_subgroup_rejects", key, false, got, det);
+            }
             // --- scheme label replaced
             for l in 0..3u8 {
                 if l != scheme {
